@@ -9,7 +9,7 @@ from __future__ import annotations
 
 from harness.common import ASSUME, FAIL, PASS, check, tape_harness  # noqa: F401  (sets sys.path)
 from harness import oracles as O
-from harness.values import G_EQ, G_DEEP, G_FULL1, G_MEDIUM, G_NESTED, G_NESTED2, G_NESTED4, G_NESTEDX, G_QUICK, G_SMALL, Grammar, build_value, show
+from harness.values import G_CLS, G_DICT3, G_EQ, G_NESTED_ALT, G_ODD, G_DEEP, G_FULL1, G_MEDIUM, G_NESTED, G_NESTED2, G_NESTED4, G_NESTEDX, G_QUICK, G_SMALL, Grammar, build_value, show
 
 from monkeytype.typing import get_type, shrink_types
 
@@ -162,7 +162,7 @@ def tape_len(g) -> int:
     return need(g.depth)
 
 
-GRAMMARS = {"quick": G_QUICK, "small": G_SMALL, "medium": G_MEDIUM, "deep": G_DEEP, "full1": G_FULL1, "nested": G_NESTED, "nested2": G_NESTED2, "nested4": G_NESTED4, "nestedx": G_NESTEDX, "eq": G_EQ}
+GRAMMARS = {"quick": G_QUICK, "small": G_SMALL, "medium": G_MEDIUM, "deep": G_DEEP, "full1": G_FULL1, "nested": G_NESTED, "nested2": G_NESTED2, "nested4": G_NESTED4, "nestedx": G_NESTEDX, "eq": G_EQ, "odd": G_ODD, "nestedalt": G_NESTED_ALT, "cls": G_CLS, "dict3": G_DICT3}
 TAPE_PREFIX = ("a", "b", "c")
 
 REGISTRY = {}
